@@ -14,9 +14,10 @@ def run(tier, seed):
     t0 = time.time()
     out = vlib.Outcome(PID)
     n = 600 if tier == "quick" else 8000
-    ps = gen_obj.programs(seed, n)
+    fixed = gen_obj.fixed_programs()
+    ps = fixed[0::2] + gen_obj.programs(seed, n) + fixed[1::2]
     progs = [(i, p) for i, p in enumerate(ps)]
-    half = n // 2
+    half = len(ps) // 2
     # half of the programs use the documented `return this;` constructor idiom
     o1, r1, bad1 = semrun.run_and_compare(progs[:half], render_opts={"ctor_return_this": False})
     o2, r2, bad2 = semrun.run_and_compare(progs[half:], render_opts={"ctor_return_this": True})
